@@ -273,6 +273,8 @@ def gen_cases(ctx: Ctx):
     for names in (["ch4", "co"], ["h2", "ch4", "co"], ["so2", "c2h4"]):
         cases.append({"names": names, "method": str(rng.choice(methods)), "eps": 1e-9, "converger": [[1], [0, 0.2]][int(rng.integers(0, 2))], "pad_to": max(len(esh.GEOMS[v][0]) for v in names)})
     # s,p,d basis (PM6): closed shells only (the package rejects PM6 + open shell); d-atoms next to s,p atoms and hydrogens, alone and in batches, both density solvers
+    # (fixed in every run: a d-atom, an s,p atom and hydrogens in one molecule - every block of the s,p,d packing is populated)
+    cases.append({"names": [["ch3cl"], ["ch3cl", "h2s"]][ctx.seed % 2], "method": "PM6", "eps": 1e-8, "converger": [[1], [0, 0.3]][ctx.seed % 2], "pad_to": 5 + ctx.seed % 2})
     dpool = [["h2s"], ["hcl"], ["ch3cl"], ["sih4"], ["so2"], ["hcl", "h2s"], ["ch3cl", "h2s"], ["h2o", "h2s"], ["sih4", "ch4"]]
     for j in range(len(dpool) if ctx.thorough else 3):
         names = dpool[(j + 3 * ctx.seed) % len(dpool)] if not ctx.thorough else dpool[j]
@@ -282,6 +284,8 @@ def gen_cases(ctx: Ctx):
         cases.append(c)
     # the differentiable SCF modes run their own copies of the loops (implicit backward = 1, unrolled = 2): every solver they accept x mixing parameters
     bw = [(2, [0, 0.0]), (2, [0, 0.1]), (1, [0, 0.3]), (2, [0, 0.7]), (1, [1]), (2, [1]), (1, [2]), (2, [0, 0.3])]
+    # (fixed in every run: the unrolled loop with a mixing parameter far from 1/2, where the weight of the old density matters most)
+    cases.append({"names": [str(rng.choice(["h2o", "nh3", "ch2o"]))], "method": str(rng.choice(methods)), "eps": 1e-9, "converger": [0, 0.0], "scf_backward": 2, "init": "default"})
     for j in range(len(bw) if ctx.thorough else 3):
         mode, conv = bw[(j + 3 * ctx.seed) % len(bw)] if not ctx.thorough else bw[j]
         cases.append({"names": [str(v) for v in rng.choice(["h2o", "nh3", "ch2o", "hcn", "hf"], size=int(rng.integers(1, 3)))], "method": methods[j % 4], "eps": float(rng.choice([1e-7, 1e-9])),
